@@ -43,7 +43,12 @@ class CompileMapper(StringifyMapper):
             elif isinstance(expr, numpy.complexfloating):
                 expr = complex(expr)
 
-        return repr(expr)
+        result = repr(expr)
+        if enclosing_prec > PREC_SUM and ("-" in result or "+" in result) \
+                and not (result.startswith("(") and result.endswith(")")):
+            # e.g. a negative base of a power: (-2)**x, not -2**x
+            return f"({result})"
+        return result
 
     def map_polynomial(self, expr, enclosing_prec):
         # Use Horner's scheme to evaluate the polynomial
